@@ -73,7 +73,9 @@ impl TraceSlider {
 
     pub(crate) fn set_position_and_len(&mut self, position: TracePos, subtrace_len: TraceLen) -> KeeperResult<()> {
         // it's possible to set empty subtrace_len and inconsistent position
-        if subtrace_len != 0 && position + subtrace_len > self.trace.trace_states_count().into() {
+        // position and subtrace_len come from the data, their sum must not be computed in u32
+        let requested_end = u64::from(u32::from(position)) + u64::from(subtrace_len);
+        if subtrace_len != 0 && requested_end > u64::from(self.trace.trace_states_count()) {
             return Err(SetSubtraceLenAndPosFailed {
                 requested_pos: position,
                 requested_subtrace_len: subtrace_len,
